@@ -90,25 +90,18 @@ def run_unit(unit, progress):
         maxfl = 0
         for pi, pol in enumerate(pols):
             how = HOWS[(i + pi) % 4]
-            # every third run keeps the tasks' dependency lists (debug option KEEP_DEPENDENCIES, which e.g. the
-            # library's own test-suite leaves switched on): which batch is flushed when must not depend on it
-            import asynq.debug as _adebug
-
+            # every third run keeps the tasks' dependency lists (debug option KEEP_DEPENDENCIES): which batch is
+            # flushed when must not depend on it
             keep = (i + pi) % 3 == 2
-            old_keep = _adebug.options.KEEP_DEPENDENCIES
-            _adebug.options.KEEP_DEPENDENCIES = keep
             try:
-                rt, out, exp, rrt = tl.execute(prog, how, pol, cs, mons, rrt_exp=exp_rrt)
+                rt, out, exp, rrt = tl.execute(prog, how, pol, cs, mons, rrt_exp=exp_rrt, keep_deps=keep)
                 if keep:
                     inc("runs_with_KEEP_DEPENDENCIES")
             except lang.HarnessFault as e:
-                _adebug.options.KEEP_DEPENDENCIES = old_keep
                 if "never flushed" in str(e) or "budget" in str(e):
                     inc("ref_skips")
                     continue
                 raise
-            finally:
-                _adebug.options.KEEP_DEPENDENCIES = old_keep
             res["evaluations"] += 1
             tl.harvest(rt, c)
             nfl = sum(1 for ev in rt.log if ev[0] == "flush_body")
